@@ -27,7 +27,7 @@ CLAIMS = {
         'design_ref': 'DESIGN.md section 5, C08',
     },
     'C09': {
-        'text': 'Lean theorem C09.comment_inert: comment() annotations at any nodes do not change a single code token of the output at any width / ribbon / indent / max_seq_len (hypotheses = the listed findings K5, K8); C09.trailing_adds_comma states the exact effect of a trailing comment. Correspondence of the comment machinery (commentdoc, sequence_of_docs, build_fncall, dict pairs, top level) on comment/trailing_comment wrappers at every single node of small trees and random nodes of random trees with adversarial texts; oracle: eval equals the uncommented value, same ast across layouts, comment words preserved (tokenize). C09.commentdoc_lines, empty_comment_ignored. Known finding K4 (trailing comments on values that cannot hold one are dropped). F4, F5 repaired.',
+        'text': 'Lean theorem C09.comment_inert: comment() annotations at any nodes do not change a single code token of the output at any width / ribbon / indent / max_seq_len (hypotheses = the listed findings K5, K8); C09.trailing_adds_comma states the exact effect of a trailing comment. C09.comments_do_not_change_the_reading (with erase_bare, over Tok.canon_reads): for both kinds of comments, at any nodes, with the limits off and at every layout, the output of the commented value and the output of the bare value read back (reader of Spec/Reader.lean) to the same expression; the one exception is the listed finding K7. Correspondence of the comment machinery (commentdoc, sequence_of_docs, build_fncall, dict pairs, top level) on comment/trailing_comment wrappers at every single node of small trees and random nodes of random trees with adversarial texts; oracle: eval equals the uncommented value, same ast across layouts, comment words preserved (tokenize). C09.commentdoc_lines, empty_comment_ignored. Known finding K4 (trailing comments on values that cannot hold one are dropped). F4, F5 repaired.',
         'note': 'value-level end-to-end theorem (reader . pformatM = id / token invariance) is not proved yet: the claim rests on C04.sound_pformat (unconditional) for the engine, C02 for the splitter, the listed syntactic lemmas about the printer model, the model=code correspondence on SDoc streams, and the CPython oracle run on every implementation output',
         'technique': 'differential correspondence + tokenize/eval oracle; Lean lemmas on commentdoc',
         'design_ref': 'DESIGN.md section 5, C09',
